@@ -161,6 +161,7 @@ def SState.init {α β : Type} (pods : List α) (ctrs : List β) : SState α β 
 inductive StepRes (α β υ ε : Type) where
   | stop (o : Outcome υ ε)
   | next (s : SState α β)
+deriving DecidableEq, Repr
 
 /-- One iteration of the `for` in `synchronize`. -/
 def step {α β υ ε σ : Type} (E : Env α β υ ε σ) (w : σ) (s : SState α β) :
@@ -206,6 +207,14 @@ def run {α β υ ε σ : Type} (E : Env α β υ ε σ) : Nat → σ → SState
     | (w', evs, .next s') =>
       let r := run E n w' s'
       ⟨evs ++ r.evs, r.out, r.world⟩
+
+/-- The loop state after `k` iterations, if the loop is still running then. -/
+def stateAfter {α β υ ε σ : Type} (E : Env α β υ ε σ) : Nat → σ → SState α β → Option (σ × SState α β)
+  | 0, w, s => some (w, s)
+  | k + 1, w, s =>
+    match step E w s with
+    | (_, _, .stop _) => none
+    | (w', _, .next s') => stateAfter E k w' s'
 
 /-- `(*plugin).synchronize(ctx, pods, containers)`. -/
 def synchronize {α β υ ε σ : Type} (E : Env α β υ ε σ) (fuel : Nat) (w : σ)
